@@ -7,7 +7,7 @@ Definition remaining (s : bs) : bytes := rbuf s ++ flat (nt s).
 
 Definition same_rest (s s' : bs) : Prop :=
   maxsize s' = maxsize s /\ recvsize s' = recvsize s /\ sbuf s' = sbuf s /\
-  script s' = script s /\ wire s' = wire s.
+  script s' = script s /\ wire s' = wire s /\ dl s' = dl s.
 
 Lemma remaining_set_recv s rb n : remaining (set_recv s rb n) = rb ++ flat n.
 Proof. reflexivity. Qed.
@@ -29,16 +29,17 @@ Lemma sock_recv_intr rs n e n' :
   wf_net n = true -> sock_recv rs n = (RIntr e, n') ->
   flat n = flat n' /\ intrs n = e :: intrs n' /\ wf_net n' = true /\ net_size n' < net_size n.
 Proof.
-  destruct n as [|[c| |c] r]; cbn; intros W H.
+  destruct n as [|[c| |c|c] r]; cbn; intros W H.
   - discriminate.
   - destruct (Nat.leb (length c) rs); discriminate.
   - inversion H; subst. repeat split; auto.
   - inversion H; subst. repeat split; auto.
+  - destruct (Nat.leb (length c) rs); discriminate.
 Qed.
 
 Lemma intrs_head n e l : intrs n = e :: l -> is_intr_exn e = true.
 Proof.
-  induction n as [|[c| |c] r IH]; cbn; intro H; try discriminate; auto; inversion H; reflexivity.
+  induction n as [|[c| |c|c] r IH]; cbn; intro H; try discriminate; auto; inversion H; reflexivity.
 Qed.
 
 Lemma sock_recv_data rs n b n' :
@@ -47,26 +48,79 @@ Lemma sock_recv_data rs n b n' :
   (b <> [] /\ flat n = b ++ flat n' /\ intrs n' = intrs n /\ wf_net n' = true /\
    net_size n' < net_size n).
 Proof.
-  destruct n as [|[c| |c] r]; cbn; intros W R H.
-  - inversion H; subst. left. auto.
-  - apply andb_true_iff in W as [Wc Wr]. apply negb_true_iff, is_nil_false in Wc.
-    destruct (Nat.leb (length c) rs) eqn:E; inversion H; subst; right.
-    + repeat split; auto. lia.
+  intros W R H.
+  assert (Hchunk : forall c r, negb (is_nil c) && wf_net r = true ->
+            (if Nat.leb (length c) rs then (RData c, r) else (RData (firstn rs c), Chunk (skipn rs c) :: r))
+            = (RData b, n') ->
+            b <> [] /\ c ++ flat r = b ++ flat n' /\ intrs n' = intrs r /\ wf_net n' = true /\
+            net_size n' < S (length c + net_size r)).
+  { intros c r Wc0 Hc. apply andb_true_iff in Wc0 as [Wc Wr]. apply negb_true_iff, is_nil_false in Wc.
+    destruct (Nat.leb (length c) rs) eqn:E; inversion Hc; subst.
+    + repeat split; auto; lia.
     + apply Nat.leb_gt in E. repeat split.
       * destruct rs; [lia|]. destruct c; [congruence|]. cbn. congruence.
       * cbn. rewrite app_assoc, firstn_skipn. reflexivity.
       * cbn. rewrite Wr, andb_true_r. apply negb_true_iff, is_nil_false.
         intro Hn. apply (f_equal (@length N)) in Hn. rewrite skipn_length in Hn. cbn in Hn. lia.
-      * cbn. rewrite skipn_length. lia.
+      * cbn. rewrite skipn_length. lia. }
+  destruct n as [|[c| |c|c] r]; cbn in *.
+  - inversion H; subst. left. auto.
+  - right. apply Hchunk; assumption.
   - discriminate.
   - discriminate.
+  - right. apply Hchunk; assumption.
 Qed.
 
 Lemma lim_take_length stop (l : bytes) : length (lim_take stop l) <= length l.
 Proof. destruct stop; cbn; [rewrite firstn_length|]; lia. Qed.
 
+(* ---- how a call can be interrupted --------------------------------------------------------- *)
+(* by the network: the next pending interruption was raised; or by the call's
+   own deadline (only Timeout, only when the call has a timeout), the network
+   raising nothing.  Either way the network has made progress (net_size). *)
+Definition intr_by (d_on : bool) (e : exn) (n n' : net) : Prop :=
+  net_size n' < net_size n /\
+  (intrs n = e :: intrs n' \/ (e = Timeout /\ intrs n' = intrs n /\ d_on = true)).
+
+(* inside a loop that may already be late *)
+Definition intr_loop (d_on late : bool) (e : exn) (n n' : net) : Prop :=
+  (intrs n = e :: intrs n' /\ net_size n' < net_size n) \/
+  (e = Timeout /\ intrs n' = intrs n /\ d_on = true /\ net_size n' <= net_size n /\
+   (late = true \/ net_size n' < net_size n)).
+
+Lemma intr_loop_top d_on e n n' : intr_loop d_on false e n n' -> intr_by d_on e n n'.
+Proof.
+  intros [[H1 H2]|(H1 & H2 & H3 & H4 & [H5|H5])]; [split; auto|discriminate|split; auto].
+Qed.
+
+Lemma intr_loop_after_data d_on late late' e n n1 n' :
+  net_size n1 < net_size n -> intrs n1 = intrs n ->
+  intr_loop d_on late' e n1 n' -> intr_loop d_on late e n n'.
+Proof.
+  intros Hs Hi [[H1 H2]|(H1 & H2 & H3 & H4 & H5)].
+  - left. split; [congruence|lia].
+  - right. repeat split; auto; try congruence; try lia.
+Qed.
+
+Lemma intr_by_is_intr d_on e n n' : intr_by d_on e n n' -> is_intr_exn e = true.
+Proof. intros [_ [H|(-> & _)]]; [exact (intrs_head _ _ _ H)|reflexivity]. Qed.
+
+Lemma exn_eqb_refl' e : exn_eqb e e = true.
+Proof. destruct e; cbn; auto using Nat.eqb_refl. Qed.
+
+Lemma intr_by_explain d_on e n n' :
+  intr_by d_on e n n' -> explain_intr d_on (OExn e) (intrs n) (length (intrs n')) = Some (intrs n').
+Proof.
+  intros [_ [H|(-> & H & ->)]]; unfold explain_intr.
+  - rewrite H. cbn [length]. rewrite Nat.eqb_refl. cbn [next_intr]. rewrite exn_eqb_refl'. reflexivity.
+  - rewrite H. assert (E : Nat.eqb (S (length (intrs n))) (length (intrs n)) = false)
+      by (apply Nat.eqb_neq; lia).
+    rewrite E, Nat.eqb_refl. reflexivity.
+Qed.
+
 (* ---- recv_until ------------------------------------------------------------------------ *)
-Definition ru_post (d : bytes) (lim : limit) (recvd : bytes) (n : net) (r : ru_res) (n' : net) : Prop :=
+Definition ru_post (d : bytes) (lim : limit) (d_on late : bool) (recvd : bytes) (n : net)
+           (r : ru_res) (n' : net) : Prop :=
   let rem := recvd ++ flat n in
   wf_net n' = true /\
   match r with
@@ -76,18 +130,18 @@ Definition ru_post (d : bytes) (lim : limit) (recvd : bytes) (n : net) (r : ru_r
       first_occ d (lim_take lim rem) = Some off /\ off + length d <= length recvd'
   | RuExn e recvd' =>
       (exists pre, recvd' = recvd ++ pre /\ flat n = pre ++ flat n') /\
-      (intrs n = e :: intrs n' \/
+      (intr_loop d_on late e n n' \/
        (intrs n' = intrs n /\ first_occ d (lim_take lim rem) = None /\
         e = (if lim_exceeded lim rem then MessageTooLong else ConnectionClosed)))
   end.
 
-Lemma ru_loop_ok d lim rs : 1 <= rs -> forall fuel recvd start n r n',
+Lemma ru_loop_ok d lim rs d_on : 1 <= rs -> forall fuel late recvd start n r n',
   wf_net n = true -> net_size n < fuel ->
   py_find d recvd start lim = py_find d recvd 0 lim ->
-  ru_loop fuel d lim rs recvd start n = (r, n') ->
-  ru_post d lim recvd n r n'.
+  ru_loop fuel d lim rs d_on late recvd start n = (r, n') ->
+  ru_post d lim d_on late recvd n r n'.
 Proof.
-  intros R. induction fuel as [|f IH]; intros recvd start n r n' W F Inv H; [lia|].
+  intros R. induction fuel as [|f IH]; intros late recvd start n r n' W F Inv H; [lia|].
   cbn [ru_loop] in H. rewrite Inv in H. pose proof (py_find_first_occ d recvd lim) as A.
   destruct (py_find d recvd 0 lim) as [off|] eqn:Ef.
   - inversion H; subst. split; [assumption|]. split; [|split; [|split]].
@@ -100,14 +154,19 @@ Proof.
       * exists []. rewrite app_nil_r. auto.
       * right. destruct (lim_take_exceeded lim recvd (flat n') Ex) as [T1 T2].
         rewrite T1, T2. repeat split; congruence.
-    + destruct (sock_recv rs n) as [[b|] n1] eqn:Er.
+    + destruct (d_on && late) eqn:Edl.
+      { (* the deadline has passed *)
+        apply andb_true_iff in Edl as [-> ->]. inversion H; subst. split; [assumption|]. split.
+        - exists []. rewrite app_nil_r. auto.
+        - left. right. repeat split; auto. }
+      destruct (sock_recv rs n) as [[b|] n1] eqn:Er.
       * destruct (sock_recv_data _ _ _ _ W R Er) as [(Hb & Hn & Hn1)|(Hb & Hf & Ht & W1 & Hs)].
         -- subst. inversion H; subst. split; [reflexivity|]. split.
            ++ exists []. rewrite app_nil_r. auto.
            ++ right. cbn [flat]. rewrite app_nil_r. rewrite Ex. repeat split; congruence.
         -- destruct b as [|x b]; [congruence|].
-           assert (Hpost : ru_post d lim (recvd ++ x :: b) n1 r n').
-           { apply (IH _ (length recvd + 1 - length d)); try assumption; try lia.
+           assert (Hpost : ru_post d lim d_on (late || slow_head n) (recvd ++ x :: b) n1 r n').
+           { apply (IH _ _ (length recvd + 1 - length d)); try assumption; try lia.
              apply find_rolling. exact Ef. }
            clear H. rename Hpost into H.
            unfold ru_post in *. destruct H as [W' H]. split; [assumption|].
@@ -116,17 +175,19 @@ Proof.
            ++ split; [exists ((x :: b) ++ pre); rewrite P1, Hf, P2, <- !app_assoc; auto|].
               rewrite Ht in H. exact H.
            ++ split; [exists ((x :: b) ++ pre); rewrite P1, Hf, P2, <- !app_assoc; auto|].
-              rewrite Ht in H. exact H.
-      * inversion H; subst. destruct (sock_recv_intr _ _ _ _ W Er) as (Hf & Ht & W1 & _).
+              destruct H as [H|H].
+              ** left. eapply intr_loop_after_data; eauto.
+              ** right. rewrite Ht in H. exact H.
+      * inversion H; subst. destruct (sock_recv_intr _ _ _ _ W Er) as (Hf & Ht & W1 & Hs).
         split; [assumption|]. split.
         -- exists []. rewrite app_nil_r. auto.
-        -- left. auto.
+        -- left. left. auto.
 Qed.
 
-(* what one receive-side call guarantees *)
-Definition recv_post (s : bs) (o : op) (out : outcome) (s' : bs) : Prop :=
+(* what one receive-side call guarantees (d_on: the truth value of the call's timeout) *)
+Definition recv_post (d_on : bool) (s : bs) (o : op) (out : outcome) (s' : bs) : Prop :=
   wf_net (nt s') = true /\ same_rest s s' /\ (exists pre, flat (nt s) = pre ++ flat (nt s')) /\
-  ((exists e, out = OExn e /\ remaining s' = remaining s /\ intrs (nt s) = e :: intrs (nt s'))
+  ((exists e, out = OExn e /\ remaining s' = remaining s /\ intr_by d_on e (nt s) (nt s'))
    \/ (is_interrupt out = false /\ intrs (nt s') = intrs (nt s) /\
        match o with
        | Recv n => exists dd, out = OBytes dd /\ spec_recv_ok (remaining s) n dd = true /\
@@ -140,12 +201,12 @@ Proof. intro H. rewrite firstn_app. replace (k - length l) with 0 by lia. cbn. a
 Lemma skipn_app_le {A} (l x : list A) k : k <= length l -> skipn k (l ++ x) = skipn k l ++ x.
 Proof. intro H. rewrite skipn_app. replace (k - length l) with 0 by lia. reflexivity. Qed.
 
-Lemma recv_until_ok s d m w out s' :
+Lemma recv_until_dl_ok d_on s d m w out s' :
   wf_net (nt s) = true -> 1 <= recvsize s ->
-  recv_until s d m w = (out, s') -> recv_post s (RecvUntil d m w) out s'.
+  recv_until_dl d_on s d m w = (out, s') -> recv_post d_on s (RecvUntil d m w) out s'.
 Proof.
-  intros W R H. unfold recv_until in H.
-  destruct (ru_loop _ _ _ _ _ _ _) as [r n'] eqn:E.
+  intros W R H. unfold recv_until_dl in H.
+  destruct (ru_loop _ _ _ _ _ _ _ _ _) as [r n'] eqn:E.
   apply ru_loop_ok in E; try assumption; try lia; [|reflexivity].
   destruct E as [W' E]. unfold recv_post, remaining.
   destruct r as [off recvd'|e recvd']; inversion H; subst; clear H; cbn [rbuf nt set_recv].
@@ -161,13 +222,18 @@ Proof.
     { rewrite P1, P2, app_assoc. reflexivity. }
     split; [assumption|]. split; [apply same_rest_set_recv|]. split; [eauto|].
     destruct E as [Ht|(Ht & Ho & ->)].
-    + left. exists e. auto.
+    + left. exists e. split; [reflexivity|]. split; [assumption|]. apply intr_loop_top. exact Ht.
     + right. split; [destruct (lim_exceeded _ _); reflexivity|]. split; [assumption|].
       cbn [spec_framing]. rewrite Ho, Hrem. reflexivity.
 Qed.
 
+Lemma recv_until_ok s d m w out s' :
+  wf_net (nt s) = true -> 1 <= recvsize s ->
+  recv_until s d m w = (out, s') -> recv_post (dl s) s (RecvUntil d m w) out s'.
+Proof. apply recv_until_dl_ok. Qed.
+
 (* ---- recv_size ---------------------------------------------------------------------------- *)
-Definition rs_post (size : limit) (acc nxt : bytes) (n : net) (r : rs_res) (n' : net) : Prop :=
+Definition rs_post (size : limit) (d_on late : bool) (acc nxt : bytes) (n : net) (r : rs_res) (n' : net) : Prop :=
   wf_net n' = true /\ exists pre, flat n = pre ++ flat n' /\
   match r with
   | RsDone acc' total' nxt' =>
@@ -176,19 +242,19 @@ Definition rs_post (size : limit) (acc nxt : bytes) (n : net) (r : rs_res) (n' :
       intrs n' = intrs n
   | RsExn e acc' =>
       acc' = acc ++ nxt ++ pre /\
-      (intrs n = e :: intrs n' \/
+      (intr_loop d_on late e n n' \/
        (e = ConnectionClosed /\ n' = [] /\ intrs n' = intrs n /\
         (reached size (length acc') = false \/ acc' = [])))
   end.
 
-Lemma rs_loop_ok size rsz : 1 <= rsz -> forall fuel acc total nxt n r n',
+Lemma rs_loop_ok size rsz d_on : 1 <= rsz -> forall fuel late acc total nxt n r n',
   wf_net n = true -> net_size n + (if is_nil nxt then 1 else 2) <= fuel ->
   total = length acc -> (nxt = [] -> n = []) ->
   (reached size total = false \/ acc = []) ->
-  rs_loop fuel size rsz acc total nxt n = (r, n') ->
-  rs_post size acc nxt n r n'.
+  rs_loop fuel size rsz d_on late acc total nxt n = (r, n') ->
+  rs_post size d_on late acc nxt n r n'.
 Proof.
-  intros R. induction fuel as [|f IH]; intros acc total nxt n r n' W F T Hc Hr H.
+  intros R. induction fuel as [|f IH]; intros late acc total nxt n r n' W F T Hc Hr H.
   { destruct (is_nil nxt); lia. }
   cbn [rs_loop] in H. destruct nxt as [|x nxt].
   - inversion H; subst. specialize (Hc eq_refl). subst. split; [reflexivity|].
@@ -197,21 +263,30 @@ Proof.
     destruct (reached size (total + length nx)) eqn:Ereach.
     + inversion H; subst. split; [assumption|]. exists []. cbn [app]. rewrite !app_nil_r.
       repeat split; auto. congruence.
-    + destruct (sock_recv rsz n) as [[b|] n1] eqn:Er.
+    + destruct (d_on && late) eqn:Edl.
+      { apply andb_true_iff in Edl as [-> ->]. inversion H; subst. split; [assumption|]. exists [].
+        cbn [app]. rewrite !app_nil_r. split; [reflexivity|]. split; [reflexivity|].
+        left. right. repeat split; auto. }
+      destruct (sock_recv rsz n) as [[b|] n1] eqn:Er.
       * destruct (sock_recv_data _ _ _ _ W R Er) as [(Hb & Hn & Hn1)|(Hb & Hf & Ht & W1 & Hs)].
         -- subst b n n1.
-           assert (Hpost : rs_post size (acc ++ nx) [] [] r n').
-           { eapply (IH (acc ++ nx) (total + length nx) [] []);
+           assert (Hpost : rs_post size d_on (late || slow_head []) (acc ++ nx) [] [] r n').
+           { eapply (IH _ (acc ++ nx) (total + length nx) [] []);
                [reflexivity | cbn; lia | rewrite app_length; lia | auto | left; exact Ereach | exact H]. }
            clear H. destruct Hpost as [W' (pre & P & H)]. split; [assumption|]. exists pre.
            split; [assumption|].
            destruct r as [acc' total' nxt'|e acc'].
            ++ destruct H as (H1 & H2). split; [|exact H2].
               rewrite H1. cbn [app]. rewrite <- !app_assoc. reflexivity.
-           ++ destruct H as (H1 & H2). split; [|exact H2].
-              rewrite H1. cbn [app]. rewrite <- !app_assoc. reflexivity.
-        -- assert (Hpost : rs_post size (acc ++ nx) b n1 r n').
-           { eapply (IH (acc ++ nx) (total + length nx) b n1);
+           ++ destruct H as (H1 & H2). split.
+              ** rewrite H1. cbn [app]. rewrite <- !app_assoc. reflexivity.
+              ** destruct H2 as [H2|H2]; [|right; exact H2].
+                 (* the recursive call ran on the closed network: it cannot have been interrupted *)
+                 left. destruct H2 as [[H2 H3]|(H2 & H3 & H4 & H5 & H6)].
+                 --- cbn in H2. discriminate.
+                 --- right. repeat split; auto. rewrite orb_false_r in H6. exact H6.
+        -- assert (Hpost : rs_post size d_on (late || slow_head n) (acc ++ nx) b n1 r n').
+           { eapply (IH _ (acc ++ nx) (total + length nx) b n1);
                [assumption | destruct (is_nil b); lia | rewrite app_length; lia | intro; congruence
                | left; exact Ereach | exact H]. }
            clear H. destruct Hpost as [W' (pre & P & H)]. split; [assumption|]. exists (b ++ pre).
@@ -221,16 +296,19 @@ Proof.
               rewrite H1, <- !app_assoc. reflexivity.
            ++ destruct H as (H1 & H2). split.
               ** rewrite H1, <- !app_assoc. reflexivity.
-              ** rewrite Ht in H2. exact H2.
-      * inversion H; subst. destruct (sock_recv_intr _ _ _ _ W Er) as (Hf & Ht & W1 & _).
-        split; [assumption|]. exists []. cbn [app]. rewrite !app_nil_r. repeat split; auto.
+              ** destruct H2 as [H2|H2].
+                 --- left. eapply intr_loop_after_data; eauto.
+                 --- right. rewrite Ht in H2. exact H2.
+      * inversion H; subst. destruct (sock_recv_intr _ _ _ _ W Er) as (Hf & Ht & W1 & Hs).
+        split; [assumption|]. exists []. cbn [app]. rewrite !app_nil_r. split; [assumption|].
+        split; [reflexivity|]. left. left. auto.
 Qed.
 
 (* recv_size with a size that may be infinite (recv_close(maxsize=None)) *)
 Definition size_post (s : bs) (size : limit) (out : outcome) (s' : bs) : Prop :=
   let rem := remaining s in
   wf_net (nt s') = true /\ same_rest s s' /\ (exists pre, flat (nt s) = pre ++ flat (nt s')) /\
-  ((exists e, out = OExn e /\ remaining s' = rem /\ intrs (nt s) = e :: intrs (nt s'))
+  ((exists e, out = OExn e /\ remaining s' = rem /\ intr_by (dl s) e (nt s) (nt s'))
    \/ (intrs (nt s') = intrs (nt s) /\
        match size with
        | Some k =>
@@ -250,23 +328,27 @@ Proof.
             (match rbuf s with [] => sock_recv (recvsize s) (nt s) | rb => (RData rb, nt s) end)
             = (RData nxt, n1) /\ wf_net n1 = true /\ (nxt = [] -> n1 = []) /\
             remaining s = nxt ++ flat n1 /\ intrs n1 = intrs (nt s) /\
-            (exists pre, flat (nt s) = pre ++ flat n1))
+            (exists pre, flat (nt s) = pre ++ flat n1) /\
+            net_size n1 <= net_size (nt s) /\
+            (match rbuf s with [] => slow_head (nt s) | _ => false end = true -> net_size n1 < net_size (nt s)))
           \/ exists e1 n1,
             (match rbuf s with [] => sock_recv (recvsize s) (nt s) | rb => (RData rb, nt s) end)
             = (RIntr e1, n1) /\ rbuf s = [] /\ wf_net n1 = true /\ flat (nt s) = flat n1 /\
-            intrs (nt s) = e1 :: intrs n1).
+            intrs (nt s) = e1 :: intrs n1 /\ net_size n1 < net_size (nt s)).
   { unfold remaining. destruct (rbuf s) as [|x rb] eqn:Erb.
     - destruct (sock_recv (recvsize s) (nt s)) as [[b|] n1] eqn:Er.
       + left. exists b, n1. split; [reflexivity|].
         destruct (sock_recv_data _ _ _ _ W R Er) as [(Hb & Hn & Hn1)|(Hb & Hf & Ht & W1 & Hs)].
-        * subst. rewrite Hn. repeat split; auto. exists []. reflexivity.
-        * repeat split; auto; try congruence. exists b. assumption.
-      + right. exists e, n1. destruct (sock_recv_intr _ _ _ _ W Er) as (Hf & Ht & W1 & _).
+        * subst. rewrite Hn. repeat split; auto; try (exists []; reflexivity). cbn. discriminate.
+        * repeat split; auto; try congruence; try lia. exists b. assumption.
+      + right. exists e, n1. destruct (sock_recv_intr _ _ _ _ W Er) as (Hf & Ht & W1 & Hs).
         repeat split; auto.
-    - left. exists (x :: rb), (nt s). repeat split; auto; try congruence. exists []. reflexivity. }
-  destruct Hfirst as [(nxt & n1 & E1 & W1 & Hc & Hrem & Ht1 & (pre1 & Hp1))|(e1 & n1 & E1 & Erb & W1 & Hf & Ht)];
+    - left. exists (x :: rb), (nt s). repeat split; auto; try congruence; try discriminate.
+      exists []. reflexivity. }
+  destruct Hfirst as [(nxt & n1 & E1 & W1 & Hc & Hrem & Ht1 & (pre1 & Hp1) & Hle1 & Hlate1)
+                     |(e1 & n1 & E1 & Erb & W1 & Hf & Ht & Hs1)];
     rewrite E1 in H.
-  - destruct (rs_loop _ _ _ _ _ _ _) as [r n2] eqn:E2.
+  - destruct (rs_loop _ _ _ _ _ _ _ _ _) as [r n2] eqn:E2.
     apply rs_loop_ok in E2; auto; try (destruct (is_nil nxt); lia).
     destruct E2 as [W2 (pre & P & E2)].
     assert (Hsuf : exists p, flat (nt s) = p ++ flat n2).
@@ -295,7 +377,11 @@ Proof.
         rewrite skipn_app_le by lia. reflexivity.
     + destruct E2 as (H1 & E2). cbn [app] in H1.
       destruct E2 as [Ht|(-> & Hn2 & Ht & Hr)].
-      * left. exists e. repeat split; try congruence. rewrite H1, P, app_assoc. reflexivity.
+      * left. exists e. split; [reflexivity|]. split; [rewrite H1, P, app_assoc; reflexivity|].
+        destruct Ht as [[Ha Hb]|(Ha & Hb & Hc' & Hd & He)]; split; try lia.
+        -- left. congruence.
+        -- destruct He as [He|He]; [specialize (Hlate1 He)|]; lia.
+        -- right. repeat split; auto. congruence.
       * right. split; [congruence|]. subst n2. cbn [flat] in P. rewrite app_nil_r in P.
         assert (Hacc : acc = nxt ++ flat n1) by (rewrite H1, P; reflexivity).
         rewrite <- Hacc. destruct size as [k|]; [|auto].
@@ -304,12 +390,13 @@ Proof.
         cbn. apply andb_false_r.
   - inversion H; subst; clear H. unfold size_post, remaining. cbn [rbuf nt set_recv].
     split; [assumption|]. split; [apply same_rest_set_recv|]. split; [exists []; assumption|].
-    left. exists e1. rewrite Erb. cbn [app]. auto.
+    left. exists e1. rewrite Erb. cbn [app]. split; [reflexivity|]. split; [congruence|].
+    split; [assumption|]. left. assumption.
 Qed.
 
 Lemma recv_size_ok s k out s' :
   wf_net (nt s) = true -> 1 <= recvsize s ->
-  recv_size s k = (out, s') -> recv_post s (RecvSize k) out s'.
+  recv_size s k = (out, s') -> recv_post (dl s) s (RecvSize k) out s'.
 Proof.
   intros W R H. apply recv_size_lim_ok in H; auto.
   destruct H as (W' & SR & Suf & H). unfold recv_post. repeat (split; [assumption|]).
@@ -324,7 +411,7 @@ Qed.
 (* ---- peek, recv_close, recv -------------------------------------------------------------------- *)
 Lemma peek_ok s k out s' :
   wf_net (nt s) = true -> 1 <= recvsize s ->
-  peek s k = (out, s') -> recv_post s (Peek k) out s'.
+  peek s k = (out, s') -> recv_post (dl s) s (Peek k) out s'.
 Proof.
   intros W R H. unfold peek in H. destruct (Nat.leb k (length (rbuf s))) eqn:E.
   - apply Nat.leb_le in E. inversion H; subst; clear H. unfold recv_post.
@@ -357,13 +444,13 @@ Qed.
 
 Lemma recv_close_ok s m out s' :
   wf_net (nt s) = true -> 1 <= recvsize s ->
-  recv_close s m = (out, s') -> recv_post s (RecvClose m) out s'.
+  recv_close s m = (out, s') -> recv_post (dl s) s (RecvClose m) out s'.
 Proof.
   intros W R H. unfold recv_close in H.
   destruct (recv_size_lim s (option_map S (resolve (maxsize s) m))) as [o1 s1] eqn:E1.
   apply recv_size_lim_ok in E1; auto. destruct E1 as (W' & SR & Suf & H1).
   unfold recv_post. destruct H1 as [(e & -> & Hrem & Ht)|(Ht & H1)].
-  - pose proof (intrs_head _ _ _ Ht) as Hi.
+  - pose proof (intr_by_is_intr _ _ _ _ Ht) as Hi.
     destruct e; try discriminate Hi; inversion H; subst; clear H; repeat (split; [assumption|]);
       left; eexists; auto.
   - cbn [spec_framing]. destruct (resolve (maxsize s) m) as [mx|] eqn:Em; cbn [option_map] in H1.
@@ -397,7 +484,7 @@ Qed.
 
 Lemma recv_ok s k out s' :
   wf_net (nt s) = true -> 1 <= recvsize s ->
-  recv s k = (out, s') -> recv_post s (Recv k) out s'.
+  recv s k = (out, s') -> recv_post (dl s) s (Recv k) out s'.
 Proof.
   intros W R H. unfold recv in H. unfold recv_post, spec_recv_ok, remaining.
   destruct (Nat.leb k (length (rbuf s))) eqn:E.
@@ -428,9 +515,10 @@ Proof.
               ** rewrite is_prefix_self. rewrite (proj2 (Nat.leb_le _ _)) by assumption.
                  destruct b; [congruence|]. reflexivity.
               ** rewrite skipn_app_le by lia. rewrite skipn_all. reflexivity.
-      * inversion H; subst; clear H. destruct (sock_recv_intr _ _ _ _ W Er) as (Hf & Ht & W1 & _).
+      * inversion H; subst; clear H. destruct (sock_recv_intr _ _ _ _ W Er) as (Hf & Ht & W1 & Hs).
         cbn [rbuf nt set_recv]. split; [assumption|]. split; [apply same_rest_set_recv|].
-        split; [exists []; assumption|]. left. exists e. cbn [app]. auto.
+        split; [exists []; assumption|]. left. exists e. cbn [app].
+        split; [reflexivity|]. split; [congruence|]. split; [assumption|]. left. assumption.
     + inversion H; subst; clear H. cbn [rbuf nt set_recv].
       split; [assumption|]. split; [apply same_rest_set_recv|]. split; [exists []; reflexivity|].
       right. repeat split. exists (x :: rb). split; [reflexivity|]. split.
@@ -441,7 +529,7 @@ Qed.
 (* ---- any receive-side call ------------------------------------------------------------------------ *)
 Theorem step_recv_ok s o out s' :
   wf_net (nt s) = true -> 1 <= recvsize s -> is_recv_op o = true ->
-  step s o = (out, s') -> recv_post s o out s'.
+  step s o = (out, s') -> recv_post (dl s) s o out s'.
 Proof.
   intros W R Ho H. destruct o; try discriminate; cbn [step] in H.
   - apply recv_until_ok; assumption.
@@ -449,4 +537,77 @@ Proof.
   - apply peek_ok; assumption.
   - apply recv_close_ok; assumption.
   - apply recv_ok; assumption.
+Qed.
+
+(* ---- the network never grows ---------------------------------------------------------------------- *)
+Lemma sock_recv_le rs n x n' : sock_recv rs n = (x, n') -> net_size n' <= net_size n.
+Proof.
+  destruct n as [|[c| |c|c] r]; cbn; intro H; try (inversion H; subst; cbn; lia);
+    destruct (Nat.leb (length c) rs); inversion H; subst; cbn; try rewrite skipn_length; lia.
+Qed.
+
+Lemma ru_loop_le d lim rs d_on : forall fuel late recvd start n r n',
+  ru_loop fuel d lim rs d_on late recvd start n = (r, n') -> net_size n' <= net_size n.
+Proof.
+  induction fuel as [|f IH]; intros late recvd start n r n' H; cbn [ru_loop] in H.
+  - inversion H; subst. lia.
+  - destruct (py_find d recvd start lim); [inversion H; subst; lia|].
+    destruct (lim_exceeded lim recvd); [inversion H; subst; lia|].
+    destruct (d_on && late); [inversion H; subst; lia|].
+    destruct (sock_recv rs n) as [[[|x b]|e] n1] eqn:Er; pose proof (sock_recv_le _ _ _ _ Er);
+      try (inversion H; subst; lia).
+    apply IH in H. lia.
+Qed.
+
+Lemma rs_loop_le size rsz d_on : forall fuel late acc total nxt n r n',
+  rs_loop fuel size rsz d_on late acc total nxt n = (r, n') -> net_size n' <= net_size n.
+Proof.
+  induction fuel as [|f IH]; intros late acc total nxt n r n' H; cbn [rs_loop] in H.
+  - inversion H; subst. lia.
+  - destruct nxt as [|x nxt]; [inversion H; subst; lia|].
+    destruct (reached size _); [inversion H; subst; lia|].
+    destruct (d_on && late); [inversion H; subst; lia|].
+    destruct (sock_recv rsz n) as [[b|e] n1] eqn:Er; pose proof (sock_recv_le _ _ _ _ Er);
+      try (inversion H; subst; lia).
+    apply IH in H. lia.
+Qed.
+
+Lemma recv_until_dl_le d_on s d m w out s' :
+  recv_until_dl d_on s d m w = (out, s') -> net_size (nt s') <= net_size (nt s).
+Proof.
+  unfold recv_until_dl. destruct (ru_loop _ _ _ _ _ _ _ _ _) as [r n'] eqn:E. apply ru_loop_le in E.
+  destruct r; intro H; inversion H; subst; exact E.
+Qed.
+
+Lemma recv_size_lim_le s size out s' :
+  recv_size_lim s size = (out, s') -> net_size (nt s') <= net_size (nt s).
+Proof.
+  unfold recv_size_lim.
+  destruct (match rbuf s with [] => sock_recv (recvsize s) (nt s) | _ => _ end) as [[nxt|e] n1] eqn:E1.
+  - assert (net_size n1 <= net_size (nt s)).
+    { destruct (rbuf s); [exact (sock_recv_le _ _ _ _ E1)|inversion E1; subst; lia]. }
+    destruct (rs_loop _ _ _ _ _ _ _ _ _) as [r n2] eqn:E2. apply rs_loop_le in E2.
+    destruct r; intro H0; inversion H0; subst; cbn; lia.
+  - assert (net_size n1 <= net_size (nt s)).
+    { destruct (rbuf s); [exact (sock_recv_le _ _ _ _ E1)|inversion E1]. }
+    intro H0; inversion H0; subst; cbn; lia.
+Qed.
+
+Lemma recv_le s k out s' : recv s k = (out, s') -> net_size (nt s') <= net_size (nt s).
+Proof.
+  unfold recv. destruct (Nat.leb _ _); [intro H; inversion H; subst; cbn; lia|].
+  destruct (rbuf s); [|intro H; inversion H; subst; cbn; lia].
+  destruct (sock_recv _ _) as [[b|e] n1] eqn:Er; pose proof (sock_recv_le _ _ _ _ Er).
+  - destruct (Nat.ltb _ _); intro H0; inversion H0; subst; cbn; lia.
+  - intro H0; inversion H0; subst; cbn; lia.
+Qed.
+
+Lemma intr_by_weaken d_on e n n' : intr_by d_on e n n' -> intr_by true e n n'.
+Proof. intros [H1 [H2|(H2 & H3 & _)]]; split; auto. Qed.
+
+(* an interruption in a later phase of a composite call is an interruption of the whole call *)
+Lemma intr_by_later d_on e n n1 n' :
+  net_size n1 <= net_size n -> intrs n1 = intrs n -> intr_by d_on e n1 n' -> intr_by d_on e n n'.
+Proof.
+  intros Hs Hi [H1 [H2|(H2 & H3 & H4)]]; split; try lia; [left; congruence|right; repeat split; auto; congruence].
 Qed.
